@@ -67,7 +67,13 @@ MENU = {
     'eqnstar': art('\\begin{eqnarray*}a&=&b\\\\ c&=&d\\end{eqnarray*}'),
     'eqn': art('\\begin{eqnarray}a&=&b\\label{r1}\\\\ c&=&d\\\\ e&=&f\\end{eqnarray}\\begin{equation}g\\label{r2}\\end{equation}\\ref{r1}\\ref{r2}'),
     'inlinemath': art('u \\(a+b\\) v \\(c\\) w'),
+    'input': art('\\input{zz-no-such-file} t \\IfFileExists{zz-no-such-file.tex}{ya}{na}'),
+    # programs that register a column type through the Python API before using it (same letter, different attributes)
+    'pycolA': art('\\begin{tabular}{lY}u&v\\end{tabular}'),
+    'pycolB': art('\\begin{tabular}{Yl}u&v\\end{tabular}'),
 }
+PYSETUP = {'pycolA': ('Y', {'text-align': 'center', 'font-style': 'italic'}),
+           'pycolB': ('Y', {'text-align': 'right'})}
 RENDER = ('plain', 'book', 'artindex')
 
 
@@ -96,11 +102,19 @@ def process(name, do_render=False):
         return _render_noreset(src)
     try:
         with core.time_limit(30):
+            if name in PYSETUP:
+                from plasTeX.Base.LaTeX.Arrays import ColumnType
+                letter, style = PYSETUP[name]
+                ColumnType.new(letter, {'style': dict(style)})
             tex = TeX()
             tex.ownerDocument.context.warnOnUnrecognized = False
             tex.input(src)
             doc = tex.parse()
-            return canon(doc.toXML()), None, None
+            extra = ''
+            if name in PYSETUP:
+                cells = doc.getElementsByTagName('ArrayCell')
+                extra = '\nSTYLES ' + repr([sorted((k, str(v)) for k, v in c.style.items()) for c in cells])
+            return canon(doc.toXML() + extra), None, None
     except core.Timeout:
         return None, None, 'timeout'
     except Exception as e:
@@ -158,17 +172,28 @@ def _render_noreset(src):
 def run_history(arg):
     """executed in a freshly forked child: -> list of per-document records"""
     hist, restore_before_last, render_last = arg
+    import os
     snap = state.pristine()
+    env0 = {k: v for k, v in os.environ.items() if k.startswith('TEX')}
+
+    def envdiff():
+        cur = {k: v for k, v in os.environ.items() if k.startswith('TEX')}
+        return [('os.environ', k, repr(env0.get(k))[:60], repr(cur.get(k))[:60]) for k in sorted(set(env0) | set(cur))
+                if env0.get(k) != cur.get(k)]
     out = []
     for i, name in enumerate(hist):
         last = i == len(hist) - 1
         if last and restore_before_last:
             snap.restore()
-        before = snap.diff()
+            for k in list(os.environ):
+                if k.startswith('TEX'):
+                    del os.environ[k]
+            os.environ.update(env0)
+        before = snap.diff() + envdiff()
         xml, files, err = process(name, do_render=(last and render_last))
         out.append({'doc': name, 'xml': core.h64(xml) if xml is not None else None, 'xml_text': xml if last else None,
                     'files': core.h64(files) if files is not None else None, 'error': err,
-                    'leak_before': before, 'leak_after': snap.diff()})
+                    'leak_before': before, 'leak_after': snap.diff() + envdiff()})
     return out
 
 
@@ -176,7 +201,12 @@ def run_history(arg):
 LEAK_PATTERNS = [       # (finding id, regex on 'module.Class.attr')
     # TeX parameters and registers keep their value on the class (ParameterCommand.invoke: type(self).value = ...)
     ('C17.REGISTER_VALUE_ON_CLASS', r'^plasTeX\.Base\.(TeX\.(Parameters|Registers)|LaTeX\.\w+)\.\w+\.value$'),
+    # column types registered through ColumnType.new live in one dictionary on the class
+    ('C17.COLUMNTYPE_REGISTRY_ON_CLASS', r'^plasTeX\.Base\.LaTeX\.Arrays\.ColumnType\.columnTypes$'),
 ]
+# Every menu document that uses a non-builtin column letter registers it first, so a left-over registry entry can
+# never explain a different result of a later document (first registration winning, say, is a different defect).
+NOT_EXPLAINING = {'C17.COLUMNTYPE_REGISTRY_ON_CLASS'}
 
 
 def leak_finding(entry):
@@ -238,7 +268,8 @@ def judge(hist, render_last=False):
     differs = (last['xml'] != base['xml'] or last['files'] != base['files'] or last['error'] != base['error'])
     if differs:
         leaked = last['leak_before']
-        explained = bool(leaked) and all(leak_finding(e) for e in leaked)
+        explained = (bool(leaked) and all(leak_finding(e) for e in leaked)
+                     and any(leak_finding(e) not in NOT_EXPLAINING for e in leaked))
         res2, err2 = fork_history(hist, True, render_last)
         cured = res2 is not None and (res2[-1]['xml'], res2[-1]['files'], res2[-1]['error']) == (
             base['xml'], base['files'], base['error'])
@@ -319,6 +350,8 @@ def replay(case):
 
 
 def run(tier, seed, rep):
+    import os
+    os.environ['TEXINPUTS'] = '/nonexistent-vp-texinputs'     # a search path that is set, so that restoring it matters
     state.pristine()
     quick = tier == 'quick'
     global MENU_ORDER
